@@ -80,8 +80,10 @@ def scenarios(ctx, n, salt):
     """generate n scenarios; those the model does not finish (`hang`: outside the property's class) are dropped"""
     rng = ctx.rng(salt)
     cases, kinds = [], []
+    off = rng.randrange(64)
     for i in range(n):
-        lines, kind = unwindgen.scenario(rng)
+        # every combination of {Output, Warn, Debug, Error, Verbose attached} x developer mode, in turn
+        lines, kind = unwindgen.scenario(rng, combo=(off + 37 * i) % 64)
         cases.append(("scen:%s:%d:%s" % (salt, i, kind), lines))
         kinds.append(kind)
     allines = [l for _, c in cases for l in c]
@@ -113,7 +115,7 @@ def check(ctx):
         common.leanchecker(ctx, PROPS_MODULE)
     exe = build(ctx)
     d = Diff(ctx, prop, exe, AREA)
-    d.base_timeout = 60
+    d.base_timeout = 25
     d.line_monitor = monitor
     bad = d.run_batch([c for c in schedcheck.corpus_cases("C14")])
     n = 160 if ctx.tier == "quick" else 8000
@@ -134,7 +136,7 @@ def check(ctx):
     ctx.samples = [l if not l.startswith("script ") else "script m <hex> ## " + l.split("## ", 1)[1] for l in s][:14]
     cov = {"evaluations": d.cases, "answer_lines_compared": d.lines, "distinct_nontrivial": len(d.distinct),
            "families_and_outcomes": hist, "dropped_model_hang": total_hang,
-           "rule": "scenario = abstract program of the unwind model's class (non-yielding while/for/do/goto loops with filler, thread-spawning and error-raising bodies; counted loops that cross the deadline; chains of thread/waitthread calls around the nesting limit ending in end / loop / abort / wait; mutual thread recursion; notify ping-pong with 1-3 waiters; abort raised inside a thread woken by notify with other waiters pending) rendered to script text + opcode-level abstract form, x started by the host call or resumed by the scheduler after a first wait (late) x protection on/off x limit {0,1,10,100} ms x clock step {0,1,2,3,7} x nesting limit {1,5,20} x every subset of Warn/Debug/Error/Verbose streams x developer flag x 1-3 interruptions in a row, followed by the recovery probes (sentinel due, new host call, Reset + recompile + host call); every answer line of every command is compared",
+           "rule": "scenario = abstract program of the unwind model's class (non-yielding while/for/do/goto loops with filler, thread-spawning and error-raising bodies; counted loops that cross the deadline; chains of thread/waitthread calls around the nesting limit ending in end / loop / abort / wait; mutual thread recursion; notify ping-pong with 1-3 waiters; abort raised inside a thread woken by notify with other waiters pending) rendered to script text + opcode-level abstract form, x started by the host call or resumed by the scheduler after a first wait (late) x protection on/off x limit {0,1,10,100} ms x clock step {0,1,2,3,7} x nesting limit {1,5,20} x every combination of Output/Warn/Debug/Error/Verbose stream attached or not x developer mode (all 64 in turn) x 1-3 interruptions in a row, followed by the recovery probes (sentinel due, new host call, Reset + recompile + host call); every answer line of every command is compared",
            "exhaustive": False, "skipped_after_failures": d.skipped}
     return common.finish(ctx, "proof", cov, TRUSTED, ASSUME,
                          "cd lean && lake build && #print axioms audit; python3 tools/check.py C14")
